@@ -90,6 +90,7 @@ m("C12","hcoords-w-sign","xy/internal/hcoords/hcoords.go","	w := line1Xdiff*line
 m("C20","rdp-projection-denominator","xy/rdp_simplify.go","		t := ((point[0]-x)*dx + (point[1]-y)*dy) / (dx*dx + dy*dy)","		t := ((point[0]-x)*dx + (point[1]-y)*dy) / (dx*dx + dy)","point-segment-formula/xy.distanceFromSegmentSquared")
 m("C14","revert-fan-base-per-polygon","xy/area_centroid.go","func (calc *AreaCentroidCalculator) setBasePoint(basePt geom.Coord) {\n	calc.basePt = basePt\n}","func (calc *AreaCentroidCalculator) setBasePoint(basePt geom.Coord) {\n	if calc.basePt == nil {\n		calc.basePt = basePt\n	}\n}","fan-base-local/")
 m("C14","centroid-area-branch-untranslated","xy/area_centroid.go","func centroid3(p1, p2, p3, c geom.Coord) {\n	c[0] = p1[0] + p2[0] + p3[0]\n	c[1] = p1[1] + p2[1] + p3[1]","func centroid3(p1, p2, p3, c geom.Coord) {\n	c[0] = (p2[0] - p1[0]) + (p3[0] - p1[0])\n	c[1] = (p2[1] - p1[1]) + (p3[1] - p1[1])","centroid-frame-consistent/(*xy.AreaCentroidCalculator).GetCentroid")
+m("C15","xy-projection-scaled-by-len2","xy/cga.go","	r := ((p[0]-lineStart[0])*(lineEnd[0]-lineStart[0]) + (p[1]-lineStart[1])*(lineEnd[1]-lineStart[1])) / len2\n\n	if r <= 0.0 {","	r := (((p[0]-lineStart[0])*(lineEnd[0]-lineStart[0]) + (p[1]-lineStart[1])*(lineEnd[1]-lineStart[1])) * len2) / (len2 * len2)\n\n	if r <= 0.0 {","integer-quantities-exact/xy.DistanceFromPointToLine")
 m("C15","xyz-no-upper-clamp","xyz/xyz.go","	if r >= 1.0 {\n		return Distance(point, lineEnd)\n	}\n\n	// compute closest point q","	// compute closest point q","segment-distance-clamped/xyz.DistancePointToLine")
 # ---- C16
 m("C16","shallow-endss","derived.gen.go","		deriveDeepCopy_12(dst.endss, src.endss)","		copy(dst.endss, src.endss)","clone-fresh/(*geom.MultiPolygon).Clone")
@@ -157,7 +158,7 @@ def main():
     root = "/verif/mutants"
     import glob
     for f in glob.glob(root + "/*/*"):
-        if not os.path.basename(f).startswith(("seed-", "neutral-", "neutral2-", "neutral3-")):
+        if not os.path.basename(f).startswith(("seed-", "neutral-", "neutral2-", "neutral3-", "neutral4-")):
             os.remove(f)
     scratch = tempfile.mkdtemp(prefix="mkmut.")
     try:
